@@ -6,6 +6,16 @@ From Coq Require Import List ZArith Bool Arith Lia Permutation Sorted.
 Import ListNotations.
 From DD Require Import Lfu.LfuModel Lfu.LfuSpec Lfu.LfuInv Lfu.LfuSpecProps.
 
+Section Gen.
+Variable val : Type.
+Local Notation bucket := (bucket val).
+Local Notation lfu := (lfu val).
+Local Notation entry := (entry val).
+Local Notation spec := (spec val).
+Local Notation op := (op val).
+Implicit Types (v : val) (e : entry) (l r : list entry) (s : lfu) (sp : spec) (b : bucket) (o : op)
+  (ops pre mid : list op).
+
 (* ------------------------------------------------------------------ *)
 (** * [of_uses]: the spec's entries with [f] uses, as (key, value) pairs *)
 
@@ -22,7 +32,7 @@ Lemma of_uses_snoc f l e :
   of_uses f l ++ (if Nat.eqb (euses e) f then [(ekey e, evalue e)] else []).
 Proof. rewrite of_uses_app, of_uses_cons. destruct (Nat.eqb (euses e) f); reflexivity. Qed.
 
-Lemma remove_key_cons k k' v' r :
+Lemma remove_key_cons k k' v' (r : list (key * val)) :
   remove_key k ((k', v') :: r) = if Z.eqb k' k then remove_key k r else (k', v') :: remove_key k r.
 Proof. unfold remove_key. cbn [filter fst]. destruct (Z.eqb k' k); reflexivity. Qed.
 
@@ -359,16 +369,58 @@ Proof.
   exact (sstep_evicted_gone _ (OSet k0 v0) k He).
 Qed.
 
+(** after [set k v] the key is linked with content [v] (whatever was evicted) *)
+Theorem lfu_set_then_find c ops k v : 1 <= c ->
+  exists u, find_key k (buckets (state_of c (ops ++ [OSet k v]))) = Some (u, v).
+Proof.
+  intros Hc. destruct (lfu_state_agrees c (ops ++ [OSet k v]) k Hc) as [FK _].
+  rewrite srun_app in FK. cbn [fst] in FK. rewrite srun_cons in FK. cbn [sstep fst srun] in FK.
+  unfold sval, suses in FK. rewrite sfind_sset, Z.eqb_refl in FK. cbn [option_map] in FK.
+  eexists. exact FK.
+Qed.
+
 (** (b) never more than capacity keys *)
 Theorem lfu_bounded c ops : 1 <= c -> size (state_of c ops) <= c.
 Proof. intros Hc. destruct (lfu_inv c ops Hc) as (_ & _ & _ & H1 & H2). lia. Qed.
+
+End Gen.
+Arguments of_uses_cons {val}.
+Arguments of_uses_app {val}.
+Arguments of_uses_snoc {val}.
+Arguments remove_key_cons {val}.
+Arguments of_uses_keys_in {val}.
+Arguments of_uses_sremove {val}.
+Arguments of_uses_sreplace {val}.
+Arguments lookup_of_uses {val}.
+Arguments lookup_of_uses_inv {val}.
+Arguments of_uses_nonnil {val}.
+Arguments of_uses_hd {val}.
+Arguments R {val}.
+Arguments R_empty {val}.
+Arguments R_sinv {val}.
+Arguments R_no_stray {val}.
+Arguments R_find {val}.
+Arguments get_sim {val}.
+Arguments R_dump {val}.
+Arguments set_sim {val}.
+Arguments step_sim {val}.
+Arguments run_sim {val}.
+Arguments lfu_inv {val}.
+Arguments lfu_refines_spec {val}.
+Arguments lfu_step_refines {val}.
+Arguments lfu_state_agrees {val}.
+Arguments run_app {val}.
+Arguments lfu_last_value {val}.
+Arguments lfu_evicted_gone {val}.
+Arguments lfu_set_then_find {val}.
+Arguments lfu_bounded {val}.
 
 (* ------------------------------------------------------------------ *)
 (** * Non-vacuity: concrete traces *)
 
 Local Open Scope Z_scope.
 
-Definition ex_ops : list op :=
+Definition ex_ops : list (op Z) :=
   [OSet 1 10; OSet 2 20; OGet 1; OSet 3 30; OGet 2; OGet 1; OSet 1 11; OGet 1; OGet 3].
 
 (** capacity 2: key 2 (0 uses) is evicted by [set 3], not key 1 (1 use) *)
